@@ -262,7 +262,7 @@ func runC01(c *Ctx) error {
 	bufAPIs := []string{"message", "writev", "async", "string", "writevasync"}
 	rounds := 1
 	if !c.quick() {
-		rounds = 6
+		rounds = 24
 	}
 	for r := 0; r < rounds; r++ {
 		for ci, pc := range cfgs {
